@@ -122,6 +122,12 @@ func RunC03(c *Ctx) {
 				if r.kind == 0 && r.name == "ReadValue" && c.Rec.WantSample() && c.Rec.R.Cases%4999 == 1 {
 					c.Rec.Sample(map[string]interface{}{"input": h.Quote(d), "how": cs.Describe(), "model_end": m.Node.End, "rjson_p": p, "rjson_tree": show(got)})
 				}
+				// now and then the caller modifies what it was given: later results must not notice
+				// (seeded change C03r5-m2: one shared map behind every empty object)
+				if c.Rec.R.Cases%8 == 0 {
+					scribble(got, 0)
+					c.Rec.C("results_modified_by_the_caller_afterwards")
+				}
 			})
 		}
 	})
